@@ -34,6 +34,7 @@ open Parsley Parsley.Obj Parsley.Spelling Parsley.DocSpec Driver Driver.C03
       redef <hex> <seed> <variant>   family 5 made systematic: a compressed object is REDEFINED INSIDE A NEW OBJECT STREAM by a
            later revision (see `genRedef`: new container numbered above / below the old one, old container still live /
            fully superseded, position of the redefined member in both streams, a second redefinition, updates in between)
+      packh <hex> <seed> <variant>   two revisions, each with a TIGHTLY PACKED object stream (see `genPackH`, Driver/C03.lean `genPack`)
       reth <hex> <seed> <revisions> <index>   identity mismatch by RETARGETING one cross-reference entry across revisions
            (see `genReth` and Driver/C03.lean `RetCase`): must be rejected; shadowed entries are controls -/
 
@@ -550,6 +551,35 @@ def genReth (seed n idx : Nat) : RetCase :=
       (if k == i && bits % 2 == 1 then [b] else []) ++ (if k == j && bits / 2 % 2 == 1 && a != 0 then [a] else [])
     ⟨garbage, bin, revs, i, (b, 0), j, target, toStream, b == 2 && i + 1 < n⟩
 
+/-! ### tightly packed object streams in histories (`packh`)
+
+    The base revision holds the packed container 20 (members 11-17) of Driver/C03.lean `genPack`; an incremental update
+    (cross-reference stream or hybrid) redefines plain object 2 and adds a SECOND packed container 40 (members 31-37) laid
+    out by another variant; optionally a third, plain revision on top.  Oracle `resolve`: all 14 members defined. -/
+
+def genPackH (seed variant : Nat) : Scene :=
+  let r := Rng.mk' (seed * 7727 + variant * 23 + 6)
+  let (garbage, r) := rndGarbage r
+  let (bin, r) := r.nat 2
+  let (p1, r) := rndValObj r 1 0
+  let (p2, r) := rndValObj r 2 0
+  let (c1, ms1, r) := packContainer r 20 [11, 12, 13, 14, 15, 16, 17] (packLayOf variant)
+  let (objs0, r) := shuffleL [p1, p2, c1] r
+  let (l0, r) := rndLay r (1 + variant % 2) 50 65535
+  let (p2', r) := rndValObj r 2 0
+  let (c2, ms2, r) := packContainer r 40 [31, 32, 33, 34, 35, 36, 37] (packLayOf (variant * 5 + 77))
+  let (objs1, r) := shuffleL [p2', c2] r
+  let (l1, r) := rndLay r (1 + (variant / 2) % 2) 51 65535
+  let (p3, r) := rndValObj r 60 0
+  let (kp, r) := r.nat 3
+  let (l2, _) := rndLay r kp 52 65535
+  let l2 := if kp == 2 then { l2 with up := false } else l2
+  let base : Rev := { objs := objs0, members := ms1, frees := [], zero := true, root := (1, 0), lay := l0 }
+  let upd : Rev := { objs := objs1, members := ms2, frees := [], zero := false, root := (1, 0), lay := l1 }
+  let top : Rev := { objs := [p3], members := [], frees := [], zero := false, root := (1, 0), lay := l2 }
+  let revs := if (variant / 4) % 2 == 1 then [base, upd, top] else [base, upd]
+  ⟨garbage, bin == 1, revs.map fun x => (x, .auto), some (List.range revs.length)⟩
+
 def judge (case impl : String) : String :=
   match judgeCommon case impl with
   | some v => v
@@ -557,6 +587,10 @@ def judge (case impl : String) : String :=
     match words case with
     | ["hist", hex, seed, variant] => judgeMerge (genHist seed.toNat! variant.toNat! (maxRevsOf variant.toNat!)) hex impl
     | ["redef", hex, seed, variant] => judgeMerge (genRedef seed.toNat! variant.toNat!) hex impl
+    | ["packh", hex, seed, variant] =>
+      let v := judgeScene (genPackH seed.toNat! variant.toNat!) hex impl
+      if v.startsWith "bad wrong-load" then "bad wrong-merge " ++ " ".intercalate ((v.splitOn " ").drop 2) else v
+    | ["pack", hex, seed, variant] => judgeScene (genPack seed.toNat! variant.toNat!) hex impl   -- one-revision histories
     | ["reth", hex, seed, n, idx] => judgeRet (genReth seed.toNat! n.toNat! idx.toNat!) hex impl "wrong-merge"
     | ["ret", hex, seed, kind, a, b, tsel, place] =>      -- one-revision histories, see Driver/C03.lean
       judgeRet (genRet seed.toNat! ⟨kind.toNat!, a.toNat!, b.toNat!, tsel.toNat!, place.toNat!⟩) hex impl "wrong-merge"
@@ -602,6 +636,13 @@ def gen (seed n : Nat) (tier : String) (emit : String → IO Unit) : IO Unit := 
       let s := (seed + 13 * rep) * 1019 + v
       let (bytes, _, _, _) := render (genRedef s v)
       emit s!"redef {hexOfBytes bytes} {s} {v}"
+  -- tightly packed object streams in two revisions: every third variant of C03's sweep
+  for rep in List.range (if tier == "thorough" then 3 else 1) do
+    for i in List.range 96 do
+      let v := 3 * i + (seed + rep) % 3
+      let s := (seed + 23 * rep) * 1033 + v
+      let (bytes, _, _, _) := render (genPackH s v)
+      emit s!"packh {hexOfBytes bytes} {s} {v}"
   -- identity mismatch by retargeting one entry across revisions: every (entry, object) pair of 2- and 3-revision histories
   for rep in List.range (if tier == "thorough" then 3 else 1) do
     for nr in [2, 3] do
@@ -642,6 +683,8 @@ def nontrivial (line : String) : Bool :=
   | "hist" :: hex :: _ => hex.length ≥ 1000
   | "big" :: _ => true
   | "redef" :: _ => true
+  | "pack" :: _ => true
+  | "packh" :: _ => true
   | "reth" :: _ => true
   | "ret" :: _ => true
   | "lenc" :: _ => true
